@@ -9,7 +9,7 @@
 (*                                                                         *)
 (* Every clause yields [c |-> id, ok |-> holds, nv |-> antecedent held]    *)
 (***************************************************************************)
-EXTENDS Prov, FS, IO, SpecXml
+EXTENDS Prov, FS, IO, SpecProvN
 
 Cl(id, nv, ok) == [c |-> id, ok |-> (~nv) \/ ok, nv |-> nv]
 
@@ -532,6 +532,12 @@ C10_read_xml(step) ==
   Cl("C10_read_xml", IsRT(step, "xml") /\ step.stage \in {"read", "done"} /\ WfXML(step.ast),
      ReadBagEq(SpecReadXML(step.ast), step.src))
 C02Clauses(step) == IF IsRT(step, "xml") THEN {C02_noexc(step), C02_rt(step)} ELSE {}
+C06_parses(step) == Cl("C06_parses", IsRT(step, "provn"), step.exc = "none")
+C06_grammar(step) == Cl("C06_grammar", IsRT(step, "provn") /\ step.exc = "none", WfProvN(step.ast))
+C06_denotes(step) ==
+  Cl("C06_denotes", IsRT(step, "provn") /\ step.exc = "none" /\ WfProvN(step.ast),
+     ReadBagEq(SpecReadProvN(step.ast), step.src))
+C06Clauses(step) == IF IsRT(step, "provn") THEN {C06_parses(step), C06_grammar(step), C06_denotes(step)} ELSE {}
 C01Clauses(step) == IF IsRT(step, "json") THEN {C01_noexc(step), C01_rt(step)} ELSE {}
 C10Clauses(step) == IF IsRT(step, "json") THEN {C10_wf_json(step), C10_read_json(step)}
                     ELSE IF IsRT(step, "xml") THEN {C10_wf_xml(step), C10_read_xml(step)} ELSE {}
